@@ -84,6 +84,10 @@ def find_registrations(fn: ast.AST) -> List[Registration]:
         if isinstance(n, ast.Assign) and len(n.targets) == 1 and isinstance(n.targets[0], ast.Subscript) \
                 and isinstance(n.targets[0].value, ast.Name) and key_is_reference_spelling(n.targets[0].slice) \
                 and not (isinstance(n.value, ast.Call) and call_name(n.value) in ("min", "max", "sorted")):   # an ownership table, not a plan
+            # ... nor a table that stores the reference OBJECT under its own spelling (the incremental form of an ownership table)
+            key_owner = n.targets[0].slice.value if isinstance(n.targets[0].slice, ast.Attribute) else None
+            if isinstance(n.value, ast.Name) and isinstance(key_owner, ast.Name) and key_owner.id == n.value.id:
+                continue
             out.append(Registration(n, n.targets[0].value.id, n.targets[0].slice, n.value))
     return out
 
@@ -465,6 +469,88 @@ def run(ctx) -> None:
                "the owner of a relative spelling is chosen by a key of the reference alone (its stage against the component's stage)" if ok else
                "the owner of a relative spelling is chosen by something that depends on the position of the reference: the outcome depends on the "
                "declaration order", construct=short(node, 100) + " <- order-independent choice")
+
+    # the incremental form:  for ref in refs: owner = D.get(ref.relativeReference); if P(ref, owner): D[ref.relativeReference] = ref
+    # P must hold when there is no owner yet or ref is strictly better under the key (stage != own stage, stage), and must not hold when
+    # the owner is strictly better: then the final owner is the minimum whatever the declaration order.  Decided on the truth table
+    # of P over the atoms  N: owner is None, A/B: ref/owner is in the component's own stage, C/D: stage(ref) </> stage(owner).
+    from vlib import boolx
+    for lp_ in [x for x in source.walk_own(fn) if isinstance(x, ast.For) and isinstance(x.target, ast.Name)]:
+        rv = lp_.target.id
+        for st in ast.walk(lp_):
+            if not (isinstance(st, ast.Assign) and len(st.targets) == 1 and isinstance(st.targets[0], ast.Subscript)
+                    and isinstance(st.targets[0].value, ast.Name) and spelling_of(st.targets[0].slice) == "relative"
+                    and isinstance(st.value, ast.Name) and st.value.id == rv and st.targets[0].value.id not in owner_tables):
+                continue
+            tname = st.targets[0].value.id
+            owner_tables[tname] = st
+            guards = [i for i in ast.walk(lp_) if isinstance(i, ast.If) and any(st is x for b in i.body for x in ast.walk(b))]
+            ovars = {n_.targets[0].id for n_ in ast.walk(lp_) if isinstance(n_, ast.Assign) and len(n_.targets) == 1 and isinstance(n_.targets[0], ast.Name)
+                     and isinstance(n_.value, ast.Call) and last_attr(n_.value) == "get" and isinstance(n_.value.func.value, ast.Name)
+                     and n_.value.func.value.id == tname}
+            own_names = {x for x in match.locals_where(fn, lambda v: (dotted(v) or "").endswith("identification.stageIndex"))}
+
+            def stage_expr(e: ast.AST) -> Optional[str]:
+                """'ref' / 'owner' when e is the stage of that object: X.stageIndex, or a one-argument local helper applied to X"""
+                if isinstance(e, ast.Attribute) and e.attr == "stageIndex" and isinstance(e.value, ast.Name):
+                    return "ref" if e.value.id == rv else "owner" if e.value.id in ovars else None
+                if isinstance(e, ast.Call) and isinstance(e.func, ast.Name) and len(e.args) == 1 and isinstance(e.args[0], ast.Name):
+                    return "ref" if e.args[0].id == rv else "owner" if e.args[0].id in ovars else None
+                return None
+
+            def atomise(e: ast.AST):
+                cp_ = match.compare_parts(e)
+                if not cp_:
+                    return None
+                l_, op_, r_ = cp_
+                if isinstance(l_, ast.Name) and l_.id in ovars and isinstance(r_, ast.Constant) and r_.value is None:
+                    return ("N", isinstance(op_, (ast.Is, ast.Eq)))
+                for a_, b_ in ((l_, r_), (r_, l_)):
+                    if isinstance(b_, ast.Name) and b_.id in own_names and stage_expr(a_) and isinstance(op_, (ast.Eq, ast.NotEq)):
+                        return ("A" if stage_expr(a_) == "ref" else "B", isinstance(op_, ast.Eq))
+                sl, sr = stage_expr(l_), stage_expr(r_)
+                if sl and sr and sl != sr:
+                    lt_ref = (sl == "ref")          # the left operand is the reference's stage
+                    if isinstance(op_, ast.Lt):
+                        return ("C", True) if lt_ref else ("D", True)
+                    if isinstance(op_, ast.Gt):
+                        return ("D", True) if lt_ref else ("C", True)
+                    if isinstance(op_, ast.LtE):
+                        return ("D", False) if lt_ref else ("C", False)
+                    if isinstance(op_, ast.GtE):
+                        return ("C", False) if lt_ref else ("D", False)
+                return None
+            verdict, why = True, ""
+            if len(guards) != 1:
+                verdict, why = False, "the assignment is not under exactly one guard"
+            else:
+                P = guards[0].test
+                try:
+                    for N in (True, False):
+                        for A in (True, False):
+                            for B in (True, False):
+                                for C in (True, False):
+                                    for D in (True, False):
+                                        if (C and D) or (A and B and (C or D)):
+                                            continue
+                                        val = boolx.evaluate(P, {"N": N, "A": A, "B": B, "C": C, "D": D}, atomise)
+                                        better = (A and not B) or ((A == B) and C)
+                                        worse = (B and not A) or ((A == B) and D)
+                                        if N and not val:
+                                            verdict, why = False, "the first candidate is not recorded"
+                                        if not N and better and not val:
+                                            verdict, why = False, "a strictly better candidate (own stage first, then the lowest stage) does not replace the owner"
+                                        if not N and worse and val:
+                                            verdict, why = False, ("a worse candidate replaces the owner (e.g. a lower-stage reference declared after the own-stage "
+                                                                   "one takes the relative spelling away from it)")
+                except boolx.Unrecognised as u_:
+                    verdict, why = False, "its guard contains a condition the rule cannot interpret (%s)" % u_
+            ctx.ob("C10.R4-one-spelling-per-reference", st, verdict,
+                   "the owner of a relative spelling is updated exactly when the new reference is better under (own stage first, lowest stage): "
+                   "order-independent" if verdict else
+                   "the owner of a relative spelling is chosen incrementally and %s: which reference owns 'A:ref' - and whose value replaces it - "
+                   "depends on the declaration order of the references" % why,
+                   construct=short(st, 100) + " <- order-independent choice")
 
     def owns_label(t: ast.AST) -> Optional[str]:
         """edge label on which THIS reference owns its relative spelling:  D[<ref>.relativeReference] is <ref>  (through locals)"""
